@@ -45,6 +45,9 @@ def configs():
 
 
 CONFIGS = configs()
+for _i, _c in enumerate(CONFIGS):
+    # in every other two-process design the consumer context is declared before the producer context
+    _c["cfirst"] = _c["layout"] == "two_proc" and (_i // 2) % 2 == 1
 
 
 def render_src(cfg):
@@ -116,7 +119,9 @@ def render_src(cfg):
         L += ["        @pctx", "        def both():"]
         L += ["            " + l for l in prod + cons_sync]
     else:
-        L += ["        @pctx", "        def producer():"] + ["            " + l for l in prod]
+        PL = ["        @pctx", "        def producer():"] + ["            " + l for l in prod]
+        if not cfg.get("cfirst"):
+            L += PL
         c = cfg["consumer"]
         if c == "sync":
             L += ["        @cctx", "        def consumer():"] + ["            " + l for l in cons_sync]
@@ -146,6 +151,8 @@ def render_src(cfg):
             L += ["        @cctx", "        async def consumer():", "            await self.c_take", "            await fetcher.ready()", "            await fetcher.exec()"]
         elif c == "mb_receive":
             L += ["        @cctx", "        async def consumer():", "            await self.c_take", "            d = await mb.receive()", "            self.got ^= True", "            self.got_data <<= d"]
+        if cfg.get("cfirst"):
+            L += PL  # the consumer context is declared (and converted) before the producer context
     return "\n".join(L) + "\n"
 
 
